@@ -1,23 +1,17 @@
-# per-property configuration of the runner: harness generators, theorem names, trusted base notes
-PROPS = {
-    "C17": {
-        "gens": ["C17bbc"],
-        "theorems": ["C17_bbc_header_roundtrip", "C17_bbc_parse_inverse", "C17_bbc_reject_short"],
-        "rule": "BBC header: all 256 sequence bytes x 8 flag combinations (exhaustive) with random tid/payload; "
-                "random datagrams of length 0..7; distinct = distinct case bodies",
-        "assumptions": [],
-        "trusted_base": [],
-        "level_text": "Round-trip / exact-consumption theorems for each auxiliary wire format over the Gallina model; "
-                      "the model is run against the Go encoders/decoders on exhaustive code-field sweeps and generated values.",
-        "level_note": "Proof is about the model; the tie to Go is the differential check (bounded by generator quality). "
-                      "Go runtime/stdlib, cboring are modelled not verified.",
-    },
-}
+# collects the per-property configuration from lib/propdefs/C??.py (each defines P = {...})
+import os, glob, importlib.util
 
+PROPS = {}
+_d = os.path.join(os.path.dirname(os.path.abspath(__file__)), "propdefs")
+for _f in sorted(glob.glob(os.path.join(_d, "C*.py"))):
+    _spec = importlib.util.spec_from_file_location("propdef_" + os.path.basename(_f)[:-3], _f)
+    _m = importlib.util.module_from_spec(_spec)
+    _spec.loader.exec_module(_m)
+    PROPS[os.path.basename(_f)[:-3]] = _m.P
+
+ALL = ["C%02d" % i for i in range(1, 21)]
 # properties not (yet) claimed, with the reason (kept current; see DESIGN.md)
 NOT_CLAIMED = {
     pid: "model and correspondence check for this property are not built yet in this tree (work in progress; see DESIGN.md §5)"
-    for pid in ["C01", "C02", "C03", "C04", "C05", "C06", "C07", "C08", "C09", "C10", "C11", "C12", "C13", "C14",
-                "C15", "C16", "C18", "C19", "C20"]
+    for pid in ALL if pid not in PROPS
 }
-
